@@ -220,10 +220,29 @@ func c18R2R3(c *Ctx, r *Report) {
 		r.Check("C18-R3", construct+" nil-on-rejected-evaluation", c.Pos(found.Pos()), ok, "the evaluation's "+s.what+" flow to the sink only on its success edge", "when the new sync function rejects the document, the "+s.what+" it accumulated before rejecting are still applied by resync: "+why)
 	}
 	// the decision to rewrite the document takes all three outcomes into account
+	// the rewrite decision: the integer cell of the enclosing function that the per-leaf callback assigns and that is compared
+	// with zero afterwards (identified by that role, not by name)
 	var changedCell *ssa.Alloc
 	EachInstr(top, false, func(in ssa.Instruction) {
-		if al, ok := in.(*ssa.Alloc); ok && al.Comment == "changed" {
-			changedCell = al
+		b, ok := in.(*ssa.BinOp)
+		if !ok || (b.Op != token.EQL && b.Op != token.NEQ) {
+			return
+		}
+		if k, isK := constInt(b.Y); !isK || k != 0 {
+			return
+		}
+		ad, isLoad := loadOf(b.X)
+		if !isLoad {
+			return
+		}
+		al, isAlloc := rootAddr(ad).(*ssa.Alloc)
+		if !isAlloc || al.Parent() != top {
+			return
+		}
+		for _, st := range storesInto(al) {
+			if st.Parent() == lit {
+				changedCell = al
+			}
 		}
 	})
 	if changedCell == nil {
